@@ -117,6 +117,8 @@ PROPS["C02"] = dict(
                  consts=dict(MaxN={"quick": 9, "thorough": 13}, CrossN={"quick": 7, "thorough": 8}, Configs="ConfigsDefault", StartT="StartEmpty"), timeout={"quick": 1500, "thorough": 7000}),
             dict(name="mid", kind="gen", module="MannWhitney.tla", cfg="MW_gen.cfg",
                  consts=dict(MaxN=0, CrossN=0, Configs="ConfigsWide", StartT={"quick": "MidPoolsQuick", "thorough": "MidPoolsThorough"}), timeout={"quick": 900, "thorough": 5000}),
+            dict(name="lop", kind="gen", module="MannWhitney.tla", cfg="MW_gen.cfg",
+                 consts=dict(MaxN=0, CrossN=0, Configs="ConfigsWide", StartT={"quick": "LopPoolsQuick", "thorough": "LopPoolsThorough"}), timeout={"quick": 900, "thorough": 5000}),
             dict(name="large", kind="gen", family="mwlarge", module="MWLarge.tla", cfg="MWLarge.cfg", workers=6,
                       consts=dict(Sizes={"quick": "SizesQuick", "thorough": "SizesThorough"}), timeout={"quick": 600, "thorough": 3000})],
 )
